@@ -66,6 +66,10 @@ CHECKS = {
   technique='property-based testing (Hypothesis) with recording doubles at the sampler entry points (nestle.sample, pymultinest.run, pypolychord.run_polychord): callbacks are driven with generated unit-cube sequences and compared with reference inverse CDFs and with a Gaussian log-likelihood recomputed by an independent model instance and the reference binning; invalid atmospheres are injected mid-sequence',
   text='Generated retrievable worlds, fitted-parameter subsets with distinct priors, shuffled heteroscedastic observations and sequences of valid and invalid cube points for each wrapped sampler; prior callback order/values, log-likelihood values, non-finite result without raising for invalid vectors, and absence of state leaking from failed evaluations; exploration level.',
   note='External samplers replaced by doubles implementing their documented callback contracts; dyPolyChord not covered; chi^2 == 0 excluded (mapped to NaN on purpose by the code).'),
+ 'C09': dict(
+  technique='property-based testing (Hypothesis): generated posterior sample sets are injected through sampler doubles (a real nestle.Result; pymultinest files + Analyzer statistics), Optimizer.fit() runs end to end and the returned solution is compared with reference weighted quantiles/means, the delivered arrays (bit-equality), an independent model at MAP/median with reference binning, and derived values recomputed sample by sample',
+  text='Generated sample sets (1-80 points, uniform/Dirichlet/geometric/tied/zero weights), fitted and derived parameter selections, nestle and MultiNest (single and multi-mode) delivery; exploration level.',
+  note='PolyChord post-processing not claimed; quantile intervals widen only where ties or zero weights make the order among equal points arbitrary; modes always carry posterior mass.'),
 }
 
 NOT_APPLICABLE = {}
